@@ -52,6 +52,27 @@ CLAIMED.update({
         technique='symbolic execution of rustc MIR with z3 (encoder/decoder round trip, interning step), native replay through eval', design='4/C18'),
 })
 
+CLAIMED.update({
+    'C14': dict(
+        text='Bounded symbolic model checking of the list/vector procedures written in Rust (cons car cdr set-car! set-cdr! append reverse list-tail '
+             'list-ref vector-length/-ref/-set!/-fill! vector->list list->vector vector-copy with start, vector-copy!, equal?) called through their real '
+             'builtin entry on fabricated heaps: lists of 0..3 pairs (proper / improper), vectors of 0..3 elements, element pointers are solver variables over '
+             '3 atom cells (aliasing explored), every index / start / end / at is a symbolic i64 in -1..len+2 or i64::MAX; both overflow semantics. Oracle: '
+             'reference store model -- result, Err exactly for invalid indices / improper lists, frame condition over all other heap cells, identity of stored '
+             'and returned objects, freshness of copied spines. One-step claim.',
+        note='Prelude procedures (length, memq..., assq..., map, for-each, list, list?) are Scheme code and outside the claim; vector-copy end argument '
+             'excluded as the property says. Counterexamples are rebuilt as Scheme programs and replayed through the real evaluator (dev + release).',
+        technique='symbolic execution of rustc MIR with z3 from fabricated VM states (one step), native replay through eval', design='4/C14'),
+    'C15': dict(
+        text='Bounded symbolic model checking of builtin/string.rs and builtin/char.rs through the real builtin entries: strings of 0..3 characters '
+             '(2 for the range procedures; thorough +1) over ALL Unicode scalar values (UTF-8 width class forked, code point symbolic), indices / start / '
+             'end symbolic i64 in -1..len+2 or i64::MAX, set / fill characters symbolic, integer->char over the full i64 range, both overflow semantics. '
+             'Oracle: a string is a vector of scalar values (R7RS): results, exactly-addressed mutation, Err for every invalid index / range / scalar value.',
+        note='Case conversion and Unicode-table predicates are decided exactly on ASCII and on a 15-character non-ASCII palette whose mappings are read from '
+             'the real library; -ci string comparisons are outside. Allocation sizes (make-string with huge counts) are outside. One-step claim.',
+        technique='symbolic execution of rustc MIR with z3 from fabricated VM states (one step), native replay through eval', design='4/C15'),
+})
+
 NOT_APPLICABLE = {
     'C01': 'whole-pipeline property over arbitrary programs (reader -> syntax-rules prelude -> compiler -> VM): no engine here can push a symbolic program through it; enumerating program shapes would be testing, not solver work (DESIGN.md section 5)',
     'C02': 'scoping is a relation between compile-time environment maps and run-time environment chains across nested activations of whole programs; the only solver-sized kernel restates the code (DESIGN.md section 5)',
